@@ -188,6 +188,14 @@ def run(facts, rep, tier):
     if not ok:
         rep.add(Finding("R16.3", "%s : counted key is not the frame's DF" % proc.name,
                         "the counter is keyed by %s" % (show(arg_expr) if arg_expr else show(step["key"])), reg.loc(cbi)))
+    # counted only for ACCEPTED frames with a non-zero address: the counting site is dominated by all three gates
+    gates = reg.gates()
+    for g in gates:
+        okg = reg.dominated_by_gate(cbi, gates[g])
+        rep.oblige(okg, ("count-gate", g))
+        if not okg:
+            rep.add(Finding("R16.3", "DF counted before gate %s" % g,
+                            "a frame is counted although %s has not accepted it (e.g. a frame whose address is zero is counted)" % g, reg.loc(cbi)))
     # counted under count_df only
     from ..mirq import controlling_decisions
     decs = controlling_decisions(proc, cfg, cbi)
